@@ -13,7 +13,7 @@ EXPLANATION = (
     "Static rules over BitField.insert, ConnectionBase._recv_datagram/_recv_message, RetrySender.__call__, "
     "FragmentSender.callback, FragmentReceiver.receive and the resend part of _build_packet_impl. Decides: (R1) by interval "
     "(comparison-partition) analysis of BitField.insert over the whole output range of SeqNum.diff and every window width "
-    "constructed in the package: newer numbers are accepted, the current number and numbers recorded in the window raise "
+    "constructed in the package: newer numbers are accepted (and a step no wider than the window shifts the bitmap, never clears it), the current number and numbers recorded in the window raise "
     "DuplicationError, and numbers older than the window raise (freshness cannot be established); (R2) the duplicate test "
     "dominates every effect of a datagram/message and its handler only counts the drop; (R3) every retransmission path "
     "re-queues the message under its stored original message number and never allocates a new one; (R4) fragment slots are "
